@@ -29,7 +29,7 @@ Respell(t, v) == [i \in 1..Len(t) |-> Spell(t[i], v)]
 TextsFrom(c) == UNION {{<<c>> \o r : r \in [1..n -> Alphabet]} : n \in 0..(MaxLen - 1)}
 \* longer texts: characters that make structure are drawn more often
 Weighted == <<97, 97, 97, 32, 32, 10, 34, 34, 39, 92, 123, 123, 125, 125, 59, 59, 43, 47, 47, 42, 233, 13, 1114367>>
-RandTexts == [k \in 1..NRand |-> [i \in 1..RandomElement(1..RandLen) |-> Weighted[RandomElement(1..Len(Weighted))]]]
+RandTexts(u_) == [k \in 1..NRand |-> [i \in 1..RandomElement(1..RandLen) |-> Weighted[RandomElement(1..Len(Weighted))]]]
 
 \* where the text ends, in terms of the lexer: the state function that meets the end of the text
 \* (read off the machine that does not treat the end as a terminator, so that "inside a word" shows)
@@ -47,7 +47,7 @@ Vec(t, v) == LET u == Respell(t, v)  items == LexAll(u, Intended)  e == EndAt(L0
 Given(u_) == ndJsonDeserialize(InFile)
 
 Cases == IF chunk = 0 THEN {Vec(<< >>, 1)}
-         ELSE IF chunk = 100 THEN {Vec(RandTexts[k], 1) : k \in 1..NRand}
+         ELSE IF chunk = 100 THEN LET R == RandTexts(0) IN {Vec(R[k], 1) : k \in 1..NRand}
          ELSE IF chunk = 200 THEN {Vec(Given(0)[k].text, 1) : k \in 1..Len(Given(0))}
          ELSE {Vec(t, v) : t \in TextsFrom(Alpha[chunk]), v \in Variants}
 GInit == chunk \in (0..Len(Alpha)) \cup {100, 200} /\ done = FALSE
